@@ -76,6 +76,7 @@ func raceBuild(s *vs.Sched, o raceOpts, dir string) {
 			panic("race harness: open failed: " + err.Error())
 		}
 		done := vs.MakeChan[int](0)
+		wdone := [3]*vs.Chan[int]{nil, vs.MakeChan[int](1), vs.MakeChan[int](1)}
 		for i := 1; i <= 2; i++ {
 			i := i
 			vs.Go(fmt.Sprintf("writer%d", i), func() {
@@ -94,9 +95,28 @@ func raceBuild(s *vs.Sched, o raceOpts, dir string) {
 					coll.ExecuteBatch(b, moss.WriteOptions{})
 					b.Close()
 				}
+				wdone[i].Send(i)
 				done.Send(i)
 			})
 		}
+		// late reader: takes its snapshot once writer 1 is through, reads it only after writer 2 is through -
+		// by then the merger has sorted / merged the segments the snapshot still refers to
+		vs.Go("latereader", func() {
+			wdone[1].Recv()
+			ss, err := coll.Snapshot()
+			wdone[2].Recv()
+			if err == nil {
+				ss.Get([]byte("m1"), moss.ReadOptions{})
+				ss.Get([]byte("p2"), moss.ReadOptions{})
+				if it, err := ss.StartIterator([]byte("m"), nil, moss.IteratorOptions{}); err == nil && it != nil {
+					it.Current()
+					it.Next()
+					it.Close()
+				}
+				ss.Close()
+			}
+			done.Send(5)
+		})
 		vs.Go("reader", func() {
 			for k := 0; k < 2; k++ {
 				if ss, err := coll.Snapshot(); err == nil {
@@ -139,7 +159,7 @@ func raceBuild(s *vs.Sched, o raceOpts, dir string) {
 			done.Send(4)
 		})
 		// closer: waits for everybody, then closes collection and store
-		for n := 0; n < 4; n++ {
+		for n := 0; n < 5; n++ {
 			done.Recv()
 		}
 		coll.Close()
